@@ -48,14 +48,16 @@ impl<'a, K, V> Entry<'a, K, V> {
     }
 }
 
-impl<K: Eq, V> FnvHashMap<K, V> {
+impl<K: Ord, V> FnvHashMap<K, V> {
     pub fn with_capacity_and_hasher(_capacity: usize, _hasher: FnvBuildHasher) -> Self {
         Self { items: Vec::with_capacity(INITIAL_CAPACITY) }
     }
-    fn position<Q: ?Sized + Eq>(&self, k: &Q) -> Option<usize> where K: Borrow<Q> {
+    fn position<Q: ?Sized + Ord>(&self, k: &Q) -> Option<usize> where K: Borrow<Q> {
         let mut i = 0;
         while i < self.items.len() {
-            if self.items[i].0.borrow() == k { return Some(i); }
+            // `Ord::cmp` instead of `==`: equality of arrays / slices of `char` compiles to a byte-wise
+            // memcmp, which CBMC unrolls byte by byte; the lexicographic comparison is element-wise.
+            if self.items[i].0.borrow().cmp(k) == std::cmp::Ordering::Equal { return Some(i); }
             i += 1;
         }
         None
@@ -63,13 +65,13 @@ impl<K: Eq, V> FnvHashMap<K, V> {
     pub fn len(&self) -> usize { self.items.len() }
     pub fn is_empty(&self) -> bool { self.items.is_empty() }
     pub fn clear(&mut self) { self.items.clear(); }
-    pub fn get<Q: ?Sized + Eq>(&self, k: &Q) -> Option<&V> where K: Borrow<Q> {
+    pub fn get<Q: ?Sized + Ord>(&self, k: &Q) -> Option<&V> where K: Borrow<Q> {
         match self.position(k) { Some(i) => Some(&self.items[i].1), None => None }
     }
-    pub fn get_mut<Q: ?Sized + Eq>(&mut self, k: &Q) -> Option<&mut V> where K: Borrow<Q> {
+    pub fn get_mut<Q: ?Sized + Ord>(&mut self, k: &Q) -> Option<&mut V> where K: Borrow<Q> {
         match self.position(k) { Some(i) => Some(&mut self.items[i].1), None => None }
     }
-    pub fn contains_key<Q: ?Sized + Eq>(&self, k: &Q) -> bool where K: Borrow<Q> {
+    pub fn contains_key<Q: ?Sized + Ord>(&self, k: &Q) -> bool where K: Borrow<Q> {
         self.position(k).is_some()
     }
     pub fn insert(&mut self, k: K, v: V) -> Option<V> {
@@ -78,7 +80,7 @@ impl<K: Eq, V> FnvHashMap<K, V> {
             None => { self.items.push((k, v)); None }
         }
     }
-    pub fn remove<Q: ?Sized + Eq>(&mut self, k: &Q) -> Option<V> where K: Borrow<Q> {
+    pub fn remove<Q: ?Sized + Ord>(&mut self, k: &Q) -> Option<V> where K: Borrow<Q> {
         match self.position(k) { Some(i) => Some(self.items.remove(i).1), None => None }
     }
     pub fn entry(&mut self, k: K) -> Entry<'_, K, V> {
